@@ -93,6 +93,7 @@ impl Property for C10 {
             ("removed>=2".into(), m / 2),
             ("removed=0".into(), m / 2),
             ("round>=2".into(), m),
+            ("procedure-switched-between-rounds".into(), m / 4),
             ("mix".into(), m * 2),
             ("removed-participant-signs".into(), m / 2),
             ("invalid:nonzero-constant".into(), m),
@@ -285,7 +286,13 @@ fn check<C: Suite>(case: &Case, ctx: &mut Ctx) -> CheckResult {
             // |R| = 1 is impossible since t >= 2
             break;
         }
-        let (new_kps, new_pk) = do_refresh::<C>(ctx, &cur_kps, &cur_pk, &remaining, shape.t, case.dkg_refresh, rng.next(), &desc)?;
+        // later rounds may switch between the dealer and the distributed procedure
+        let use_dkg = if round > 1 && case.seed & 2 == 2 { !case.dkg_refresh } else { case.dkg_refresh };
+        if use_dkg != case.dkg_refresh {
+            ctx.label("procedure-switched-between-rounds");
+        }
+        let proc_name = if use_dkg { "dkg" } else { "dealer" };
+        let (new_kps, new_pk) = do_refresh::<C>(ctx, &cur_kps, &cur_pk, &remaining, shape.t, use_dkg, rng.next(), &desc)?;
 
         // ---- invariants
         ensure!(ctx, *new_pk.verifying_key() == vk0, &format!("C10/{proc_name}-refresh/group-key-changed"), "group verifying key changed by the refresh ({desc})");
